@@ -68,6 +68,15 @@ pub fn make_tree() -> Tree {
     let _ = std::os::unix::fs::symlink("a", base.join("ln-a"));
     let _ = std::os::unix::fs::symlink("../secret", base.join("ln-out"));
     let _ = std::os::unix::fs::symlink("..", base.join("ln-up"));
+    // a .gz sibling that exists, opens and is neither a directory nor a regular file (a link to a device):
+    // "that sibling exists and is not a directory" -- it is substituted
+    w(&base.join("page"), "page");
+    let _ = std::os::unix::fs::symlink("/dev/null", base.join("page.gz"));
+    // and one that is a link to a directory, and a dangling one
+    w(&base.join("q"), "q");
+    let _ = std::os::unix::fs::symlink("sub", base.join("q.gz"));
+    w(&base.join("r"), "r");
+    let _ = std::os::unix::fs::symlink("nowhere", base.join("r.gz"));
     std::fs::create_dir(base.join("sub")).unwrap();
     w(&base.join("sub").join("a"), "sub a");
     std::fs::create_dir(base.join("sub").join("a.gz")).unwrap();
@@ -196,7 +205,7 @@ pub fn gen_c19(rng: &mut Rng, thorough: bool, emit: &mut dyn FnMut(DirCase)) {
     }
     // other names: .gz given explicitly, dots, long names
     let longs: Vec<String> = [252usize, 251, 250, 253, 255, 256].iter().map(|n| long_name(*n)).collect();
-    let mut named: Vec<String> = ["a.gz", "sub/a.gz", "sub/b", "sub/b.gz", "sub.gz", "sub", "sub/", "sub/sub/a", "sub/./a", "sub//a", "./a", "a/.", "a/", "..gz", "...gz", ".gz", "", "a.gz.gz", "c.gz", "c.gz.gz", "c", "d.tar.gz", "d.tar", "sub/x.gz", "sub/x", "sub/x.gz.gz", "ln-a", "ln-out", "ln-up/secret", "ln-up", "ln-a.gz", "nonexistent", "sub/nonexistent", "a/b"].iter().map(|s| s.to_string()).collect();
+    let mut named: Vec<String> = ["a.gz", "sub/a.gz", "sub/b", "sub/b.gz", "sub.gz", "sub", "sub/", "sub/sub/a", "sub/./a", "sub//a", "./a", "a/.", "a/", "..gz", "...gz", ".gz", "", "a.gz.gz", "c.gz", "c.gz.gz", "c", "d.tar.gz", "d.tar", "sub/x.gz", "sub/x", "sub/x.gz.gz", "page", "page.gz", "q", "r", "ln-a", "ln-out", "ln-up/secret", "ln-up", "ln-a.gz", "nonexistent", "sub/nonexistent", "a/b"].iter().map(|s| s.to_string()).collect();
     named.extend(longs);
     for p in named.iter().map(|s| s.as_str()) {
         for auto in [true, false] {
